@@ -3,6 +3,7 @@
 -/
 import Oracle.Avc
 import Oracle.Rtmp
+import Oracle.RtmpPkt
 import Oracle.Flv
 import Oracle.Amf0
 import Oracle.Aac
@@ -17,6 +18,7 @@ namespace Oracle
 
 def handlers : List (String × (String → List String → Option String)) := [
   ("avc.", Oracle.Avc.handle),
+  ("rtmp.pkt.", Oracle.RtmpPkt.handle), ("rtmp.dispatch", Oracle.RtmpPkt.handle), ("rtmp.expect.", Oracle.RtmpPkt.handle),
   ("rtmp.", Oracle.Rtmp.handle),
   ("flv.", Oracle.Flv.handle),
   ("amf0.", Oracle.Amf0.handle),
